@@ -81,3 +81,62 @@ func relock(k string) {
 	tabMu.Unlock()
 	tabMu.Unlock()
 }
+
+// ---- thread-modular mode: guaranteed writes (written) and mode-restricted postconditions
+type Counters struct {
+	c   [4]int64
+	m   int64
+	gen int64
+}
+
+// unconditional stores reach every cell whatever the others do
+func clearAll(b *Counters) {
+	for i := 0; i < 4; i++ {
+		atomic.StoreInt64(&b.c[i], 0)
+	}
+	atomic.StoreInt64(&b.m, 7)
+}
+
+// straight-line stores: the one-thread postcondition and the thread-modular one are different clauses
+func storeTwo(b *Counters) {
+	atomic.StoreInt64(&b.c[0], 0)
+	atomic.StoreInt64(&b.c[1], 0)
+}
+
+// a compare-and-swap that is not retried may store nothing
+func clearOneByCas(b *Counters) {
+	if v := atomic.LoadInt64(&b.c[1]); v != 0 {
+		atomic.CompareAndSwapInt64(&b.c[1], v, 0)
+	}
+}
+
+// a retried compare-and-swap returns only after it has stored
+func clearOneRetry(b *Counters) {
+	for {
+		v := atomic.LoadInt64(&b.c[1])
+		if atomic.CompareAndSwapInt64(&b.c[1], v, 0) {
+			return
+		}
+	}
+}
+
+// the callee's stores are followed through the inlined call
+func publishAfterClear(b *Counters) {
+	clearAll(b)
+	atomic.StoreInt64(&b.gen, 1)
+}
+
+func publishBeforeClear(b *Counters) {
+	atomic.StoreInt64(&b.gen, 1)
+	clearAll(b)
+}
+
+// a spec function applied to a bound variable
+func firstNegative(a []int) int {
+	for i, v := range a {
+		if v < 0 {
+			return i
+		}
+	}
+	return -1
+}
